@@ -300,6 +300,10 @@ func (s *Stats) evalFast(c Case, nontrivial bool, classes ...string) {
 
 func TestMain(m *testing.M) {
 	code := m.Run()
+	if fuzzStats != nil { // corpus replay of a fuzz target in a plain run
+		fuzzExecs = 499
+		fuzzFlush()
+	}
 	if os.Getenv("VERIF_SCRATCH") == "" && scratchRoot != "" {
 		os.RemoveAll(scratchRoot)
 	}
